@@ -24,6 +24,7 @@ class F:
     init: bool = True
     maxlen: int = 3              # VAR
     default: Any = None          # PROP with init=False: the value the instance carries
+    seq: Any = tuple             # VAR/FIX: the sequence type the field is built with (legacy classes also use list)
 
 
 @dataclass
@@ -190,7 +191,7 @@ class Universe:
             if f.kind == PROP:
                 kw[fn] = v
             elif f.kind in (VAR, FIX):
-                kw[fn] = tuple(self._b(x, origin, path + ((fn, i),), index, share) for i, x in enumerate(v))
+                kw[fn] = f.seq(self._b(x, origin, path + ((fn, i),), index, share) for i, x in enumerate(v))
             else:
                 kw[fn] = None if v is None else self._b(v, origin, path + ((fn, None),), index, share)
         if origin is not None:
